@@ -118,10 +118,26 @@ impl RawImage {
             return Err(PngError::InvalidDepthForType(bit_depth, color_type));
         }
 
+        // Validate dimensions
+        if width == 0 || height == 0 {
+            return Err(PngError::new("Image width and height must not be zero"));
+        }
+
+        // Validate palette size
+        if let ColorType::Indexed { palette } = &color_type {
+            if palette.is_empty() || palette.len() > 1 << bit_depth as u8 {
+                return Err(PngError::new(
+                    "Palette must have between 1 and 2^bit_depth entries",
+                ));
+            }
+        }
+
         // Validate data length
         let bpp = bit_depth as usize * color_type.channels_per_pixel() as usize;
         let row_bytes = (bpp * width as usize).div_ceil(8);
-        let expected_len = row_bytes * height as usize;
+        let expected_len = row_bytes
+            .checked_mul(height as usize)
+            .ok_or(PngError::IncorrectDataLength(data.len(), usize::MAX))?;
         if data.len() != expected_len {
             return Err(PngError::IncorrectDataLength(data.len(), expected_len));
         }
